@@ -559,7 +559,9 @@ class ObservableResource(Resource, metaclass=abc.ABCMeta):
                 if is_last:
                     return
         finally:
-            servobs._cancellation_callback()
+            # There is no callback unless the resource accepted the observation
+            if servobs._accepted:
+                servobs._cancellation_callback()
 
     async def render_to_pipe(self, request: Pipe) -> None:
         warnings.warn(
